@@ -13,6 +13,11 @@ CHECKS = {
    text="Every input of the bounded spaces runs the full parse->compile->evaluate->validate->export(CUE/JSON/YAML) pipeline twice in one context, once in a fresh context (helper process, stack cap 256 MiB, 30 s deadline) and once in the worker process; any panic, fatal error, timeout or byte difference between the four outputs is a violation.",
    note="Trusts the helper-process protocol; time/memory bounds are the stack cap and the 30 s deadline. Inputs beyond the length/declaration bound are not covered.",
    ref="DESIGN.md §3 C02"),
+ "C03": dict(engine="enum",
+   technique="bounded-exhaustive enumeration of constraint conjunctions x atoms on the real evaluator against an independent set-membership reference model (big.Rat)",
+   text="Every multiset of <=k constraints of a dense alphabet (atoms, types, predeclared ranges, all comparison operators x boundary constants, !=null, regexps) is unified with every atom of the alphabet by the real evaluator; acceptance, the resulting atom, bottom-only-if-unsatisfiable and pinned-atom correctness are compared with the model for every pair.",
+   note="Trusts the 150-line model in src/model/scalar.go. Large magnitudes are not in the alphabet (C06 covers number exactness).",
+   ref="DESIGN.md §3 C03"),
  "C09": dict(engine="enum",
    technique="bounded-exhaustive enumeration of token strings / strings x quoting forms / literal spellings on the real scanner, parser and literal package (explicit-state, no sampling)",
    text="Every token string up to the length bound, every string over a hostile rune alphabet under every quoting form and every literal-candidate spelling up to the bound is executed on the real code and checked against position invariants, Unquote(Quote(s))==s and three-way validity agreement. Exhaustive within the stated alphabet/bound; says nothing beyond it.",
